@@ -144,6 +144,26 @@ func (sc *V1Misc) Run(t *core.Tape, env *Env) (any, []core.Violation) {
 			_ = e
 			return nil
 		case "Value-methods":
+			if s.Chance(1, 2) {
+				// members that tie: duplicate names whose values (or the names
+				// themselves) differ only in how an ill-formed sequence is spelled, so that
+				// sorting has to compare valid against ill-formed UTF-8 right at the end
+				twins := []string{"\"\xef\xbf\xbd\"", "\"\xef\"", "\"\xef\xbf\"", "\"k\xff\"", "\"k\xef\xbf\xbd\"", "\"k\xef\"", "\"\\ufffd\"", "\"\xf0\x90\x80\"", "\"\xf0\x90\x80\x80\"", "\"\"", "1", "[]"}
+				b := []byte{'{'}
+				for i, n := 0, 2+s.Draw(4); i < n; i++ {
+					if i > 0 {
+						b = append(b, ',')
+					}
+					if s.Chance(2, 3) {
+						b = append(b, `"a"`...)
+					} else {
+						b = append(b, twins[s.Draw(9)]...)
+					}
+					b = append(b, ':')
+					b = append(b, twins[s.Draw(len(twins))]...)
+				}
+				src = append(b, '}')
+			}
 			v := jsontext.Value(append([]byte(nil), src...))
 			opts := []jsontext.Options{jsontext.AllowInvalidUTF8(s.Bool()), jsontext.AllowDuplicateNames(s.Bool())}
 			if s.Bool() {
